@@ -14,7 +14,7 @@
 
    Only pinned statements (closed by [exact]) and Examples. *)
 From SC Require Import Lib.Prelude Lib.Int Lib.Host Model.Timelock Model.TimelockGhost Model.TimelockController
-  Proofs.Timelock Proofs.C08Final Proofs.Controller Proofs.C09Final Run.C09 Proofs.C09Monitor.
+  Proofs.Timelock Proofs.C08Final Proofs.Controller Proofs.C09Final Proofs.C09Enum Run.C09 Proofs.C09Monitor.
 
 (* __check_auth (fixed code) succeeds only with exactly one descriptor per context; every context
    names the controller; the operation (controller, fn, args, predecessor, salt) it stands for was
@@ -206,13 +206,55 @@ Theorem C09_controller_refines_timelock :
 Proof. exact crun_ghost. Qed.
 Print Assumptions C09_controller_refines_timelock.
 
+(* WHO holds a role (and may therefore schedule / cancel / execute / be named as executor) is what the
+   enumeration getters show, in every state reached from the constructor by any call sequence: for every
+   role the enumeration get_role_member(0 .. count-1) lists no account twice, get_role_member_count is
+   its length, an account holds the role exactly when it is enumerated, and has_role(account) = Some i
+   exactly when the account is the i-th enumerated member - whatever the order of grants and of
+   swap-and-pop removals was. *)
+Theorem C09_role_enumeration_sound :
+  forall (hash : op -> id) (aid : argv -> N) (cf : cfg) n0 md props execs adm s0 cs,
+    construct cf n0 md props execs adm = Ok s0 ->
+    let a := acs (run hash aid cf s0 cs) in
+    forall ro,
+      NoDup (mem_list a ro) /\ role_count a ro = Z.of_nat (length (mem_list a ro)) /\
+      (forall x, holds a x ro = true <-> In x (mem_list a ro)) /\
+      (forall x i, has_role a x ro = Some i <->
+                   0 <= i < role_count a ro /\ nth_error (mem_list a ro) (Z.to_nat i) = Some x).
+Proof. exact role_enumeration_sound. Qed.
+Print Assumptions C09_role_enumeration_sound.
+
+(* A revocation through the timelock is final: over every call sequence from the constructor, once
+   revoke_role(x, ro) or renounce_role(ro) by x has succeeded, x does not hold ro after ANY further
+   calls among which no grant_role names (x, ro) again - whatever is granted, revoked or renounced for
+   other accounts or roles in between, in any order.  Hence x cannot schedule (ro = proposer), cancel
+   (ro = canceller), and - while executors are configured - neither execute nor be the executor named
+   in an authorisation of the controller (ro = executor). *)
+Theorem C09_revoked_stays_revoked :
+  forall (hash : op -> id) (aid : argv -> N) (cf : cfg) n0 md props execs adm s0 pre c rest x ro s1 r0,
+    construct cf n0 md props execs adm = Ok s0 ->
+    step_ok hash aid cf (run hash aid cf s0 pre) c = Ok (s1, r0) ->
+    (exists k au, c = RevokeRole x ro k au) \/ (exists au, c = RenounceRole ro x au) ->
+    forallb (fun c' => negb (match c' with GrantRole a r _ _ => N.eqb a x && N.eqb r ro | _ => false end)) rest = true ->
+    let s := run hash aid cf s1 rest in
+    holds (acs s) x ro = false /\
+    (ro = PROPOSER -> forall o d au, step_ok hash aid cf s (ScheduleOp o d x au) = Fail) /\
+    (ro = CANCELLER -> forall i au, step_ok hash aid cf s (CancelOp i x au) = Fail) /\
+    (ro = EXECUTOR -> role_count (acs s) EXECUTOR <> 0 ->
+       (forall o tgt au, step_ok hash aid cf s (ExecuteOp o (Some x) tgt au) = Fail) /\
+       (forall direct xa cx m, m_exec m = Some x -> check_ctx hash cf direct xa s cx m = Fail)).
+Proof. exact revoked_stays_revoked. Qed.
+Print Assumptions C09_revoked_stays_revoked.
+
 (* The monitor run on the implementation's traces accepts every run of the model, and the model's
    diff with itself is empty - for every measured id / argument table that is a function and injective
-   and whose ids are all observed, and every call sequence that names only accounts, roles and executors
-   of the observed universe and attaches authorisations of the controller only to calls whose argument
-   vector is in the table ([call_wf], a boolean that [check] itself verifies on every trace). *)
+   and whose ids are all observed, constructor lists inside the observed universe, and every call sequence
+   that names only accounts, roles and executors of the observed universe and attaches authorisations of the
+   controller only to calls whose argument vector is in the table ([call_wf]; both are booleans that [check]
+   itself verifies on every trace). *)
 Theorem C09_monitor_accepts_model :
   forall cf n0 md props execs adm ids naddr nroles tags tbl avs s0 cs,
+    forallb (in_upto naddr) (props ++ execs) = true ->
     2 <= n0 <= MAXU32 -> tbl_ok tbl = true -> avs_ok avs = true -> tbl_in ids tbl = true -> (3 <=? nroles)%N = true ->
     forallb (call_wf naddr nroles avs) cs = true ->
     construct cf n0 md props execs adm = Ok s0 ->
